@@ -176,7 +176,14 @@ func runCheck(o checkOpts) int {
 		sel = append(sel, sp)
 		pkgSet[sp.Pkg] = true
 	}
-	if len(sel) == 0 {
+	var lemmas []*Lemma
+	for _, lm := range db.Lemmas {
+		if lm.Props[o.prop] && (o.only == "" || strings.Contains(lm.Name, o.only)) {
+			lemmas = append(lemmas, lm)
+			pkgSet[lm.Pkg] = true
+		}
+	}
+	if len(sel) == 0 && len(lemmas) == 0 {
 		return fail("no function under contract for property " + o.prop)
 	}
 	var patterns []string
@@ -211,6 +218,23 @@ func runCheck(o checkOpts) int {
 		}
 		runs = append(runs, r)
 		all = append(all, r.obls...)
+	}
+	for _, lm := range lemmas {
+		e := engs[false]
+		if e == nil {
+			e = newEng(l, db, false)
+			engs[false] = e
+		}
+		func() {
+			defer func() {
+				if x := recover(); x != nil {
+					genErrors = append(genErrors, fmt.Sprintf("lemma %s: generator failed: %v", lm.Name, x))
+				}
+			}()
+			r := e.verifyLemma(lm)
+			runs = append(runs, r)
+			all = append(all, r.obls...)
+		}()
 	}
 	for _, e := range engs {
 		genErrors = append(genErrors, e.specErrors...)
